@@ -1,2 +1,5 @@
 import Rp2.Props.C14
 #print axioms Rp2.C14.each_fraction_one_row_no_overwrite
+#print axioms Rp2.C14.us_map
+#print axioms Rp2.C14.ie_map
+#print axioms Rp2.C14.map_is_the_propertys
